@@ -37,7 +37,9 @@ ANCHORS = {
 
 def gen_cases(tier, seed):
     n = 320 if tier == "quick" else 5000
-    return [{"id": f"run{i}", "seed": [seed, i]} for i in range(n)]
+    cases = [{"id": f"run{i}", "seed": [seed, i]} for i in range(n)]
+    cases += [{"id": f"long{i}", "seed": [seed, "long", i], "long": True} for i in range(12 if tier == "quick" else 200)]
+    return cases
 
 
 def make_run(case):
@@ -95,6 +97,8 @@ def make_run(case):
                 ov["start_preconditioning_step"] = f
             groups.append({"params": part, "overrides": ov})
     T = rnd.randint(6, 25)
+    if case.get("long"):
+        T = rnd.randint(40, 90)  # long histories: late refreshes, bias corrections close to 1, many mask changes
     pk, presence = G.rand_presence(rnd, n, T)
     edits = G.rand_schedule(rnd, T, len(groups) if groups else 1, cfg)
     return {"cfg": cfg, "shapes": shapes, "groups": groups, "T": T, "presence_kind": pk, "presence": presence, "edits": edits, "grad_scale": gs, "grad_kind": rnd.choice(["dense", "dense", "lowrank", "sparse"])}
